@@ -5,6 +5,8 @@ import (
 	"fmt"
 	"net"
 	"strings"
+	"sync"
+	"sync/atomic"
 	"time"
 
 	"github.com/go-ldap/ldap/v3"
@@ -27,7 +29,7 @@ func init() {
 		Phases: func(tier string, seed int64) []Phase {
 			return []Phase{{Name: "binds-plain", Run: func(c *Ctx) { c19Run(c, "plain") }}, {Name: "binds-tls", Run: func(c *Ctx) { c19Run(c, "tls") }}, {Name: "binds-starttls", Run: func(c *Ctx) { c19Run(c, "starttls") }}}
 		},
-		MinObserved: []string{"binds", "binds_expected_success", "binds_expected_failure", "ldap_mutation_steps", "user_sets_checked_with_response_controls_configured"},
+		MinObserved: []string{"binds", "binds_expected_success", "binds_expected_failure", "ldap_mutation_steps", "user_sets_checked_with_response_controls_configured", "user_sets_checked_while_the_configuration_was_being_reapplied"},
 	})
 }
 
@@ -155,7 +157,12 @@ func c19Run(c *Ctx, transport string) {
 		c.Inconclusive(err.Error())
 		return
 	}
-	defer td.Stop()
+	wedged := false
+	defer func() {
+		if !wedged {
+			td.Stop() // (a directory whose handlers are stuck would keep Stop waiting for them)
+		}
+	}()
 	cl, err := dirDial(addr, transport)
 	if err != nil {
 		c.Inconclusive("dial: " + err.Error())
@@ -227,7 +234,11 @@ func c19Run(c *Ctx, transport string) {
 				c.Count("binds", 1)
 				c.Distinct("cases", fmt.Sprintf("%s|%v|%q|%q", setSig, anon, dn, pw))
 				if err != nil {
-					c.Violate("bind got no well-formed answer", err.Error(), map[string]any{"users": users, "anon": anon, "dn": dn, "pw": pw})
+					c.Violate("bind got no well-formed answer", err.Error(), map[string]any{"users": users, "anon": anon, "dn": dn, "pw": pw, "set": setSig})
+					if strings.HasPrefix(setSig, "reapplied") {
+						wedged = true
+						return false // one unanswered bind settles it; the directory may be wedged for good
+					}
 					cl.Close()
 					cl, err = dirDial(addr, transport)
 					if err != nil {
@@ -308,6 +319,53 @@ func c19Run(c *Ctx, transport string) {
 			users = append(users, c19Pool[i])
 		}
 		if !check(users, r.Bool(), sig(idx)) {
+			return
+		}
+	}
+	// ---- binds while the application keeps re-applying the directory's configuration (the same users, the same
+	// anonymous setting, the same controls): the predicate does not change, so neither do the answers - and every bind
+	// still gets one
+	for k := 0; k < c.N(4, 60); k++ {
+		var idx []int
+		for j, n := 0, 1+r.Intn(4); j < n; j++ {
+			idx = append(idx, r.Intn(len(c19Pool)))
+		}
+		var users []c19User
+		for _, i := range idx {
+			users = append(users, c19Pool[i])
+		}
+		anon := r.Bool()
+		stop := make(chan struct{})
+		var reapplied atomic.Int64
+		var rw sync.WaitGroup
+		rw.Add(1)
+		go func() {
+			defer rw.Done()
+			for {
+				select {
+				case <-stop:
+					return
+				default:
+				}
+				td.SetUsers(c19Entries(users)...)
+				td.SetAllowAnonymousBind(anon)
+				reapplied.Add(1)
+			}
+		}()
+		ok := check(users, anon, "reapplied"+sig(idx))
+		close(stop)
+		done := make(chan struct{})
+		go func() { rw.Wait(); close(done) }()
+		select {
+		case <-done:
+		case <-time.After(patience):
+			c.Violate("bind got no well-formed answer", "the goroutine that re-applies the directory's configuration is stuck in a Set* call", map[string]any{"users": users})
+			wedged = true
+			return
+		}
+		c.Count("user_sets_checked_while_the_configuration_was_being_reapplied", 1)
+		c.Count("configuration_reapplications_during_binds", reapplied.Load())
+		if !ok {
 			return
 		}
 	}
